@@ -233,6 +233,40 @@ def _big_samples(n, width):
     return [((i * 37) % 251) - 125 for i in range(n)] if width == 1 else [((i * 7919) % 65521) - 32760 for i in range(n)]
 
 
+SIL_LABELS = ("s", "sil", "il", "silx", "a", "SIL")
+
+
+def _check_split_silence(case):
+    """splitAudioOnTier with a silenceLabel: exactly the entries whose label IS that label are left out - an entry whose label is a part of it
+    ('s', 'il' under 'sil'), or contains it, is an entry like any other"""
+    width, rate, sil, ns = case
+    d = scratch_dir()
+    fn = _wavfile(width, rate, "split")
+    tgfn = os.path.join(d, "c17-sil.TextGrid")
+    od = os.path.join(d, "c17-sil-out")
+    shutil.rmtree(od, ignore_errors=True)
+    ivs = [(2 * i, 2 * i + 2) for i in range(len(SIL_LABELS))]
+    E = [(a / rate, b / rate, lab) for (a, b), lab in zip(ivs, SIL_LABELS)]
+    tg = Textgrid()
+    tg.addTier(IT("w", E, 0, N / rate))
+    tg.save(tgfn, "short_textgrid", True)
+    st, r, _ = call(praatio_scripts.splitAudioOnTier, fn, tgfn, "w", od, False, ns, False, sil)
+    tag = f"splitAudioOnTier(silenceLabel={sil!r}, nameStyle={ns!r}) on entries labelled {SIL_LABELS} (width {width}, rate {rate})"
+    if st == "exc":
+        return 1, "X", None, [Viol("split-raised:" + type(r).__name__, f"{tag}: {r!r}")]
+    kept = [(a, b) for (a, b), lab in zip(ivs, SIL_LABELS) if lab != sil]
+    wavs = sorted(f for f in os.listdir(od) if f.endswith(".wav"))
+    if len(r) != len(kept) or len(wavs) != len(kept):
+        return 1, "!", None, [Viol("split-silence-selection", f"{tag}: {len(wavs)} files written / {len(r)} rows returned; {len(kept)} entries carry another label "
+                                                              f"than the silence label")]
+    s = list(SAMPLES)
+    for (a, b), row in zip(kept, r):
+        info = W.read_riff(os.path.join(od, row[2])) if os.path.exists(os.path.join(od, row[2])) else None
+        if info is None or info["samples"] != s[a:b]:
+            return 1, "!", None, [Viol("split-silence-content", f"{tag}: file {row[2]!r} holds {None if info is None else info['samples']}, expected samples {a}..{b} = {s[a:b]}")]
+    return 1, "ok", (width, sil, ns), []
+
+
 def _check_stereo(case):
     """a two-channel recording handed to readFramesAtTimes as an open wave reader: a frame is one sample PER CHANNEL; the kept stretches come back
     frame for frame (boundaries on frame positions)"""
@@ -646,6 +680,10 @@ def parts(tier):
                        "samples, original length and positions with replacement; off-grid: contiguous runs whose ends are floor or ceil "
                        "of the exact positions; lists of 2-3 intervals also in descending / rotated listing order (same result as in time order)" % (len(combos), GRIDPOS),
                   bounds={"recording_samples": N, "max_intervals": 3}),
+        InputPart("splitAudioOnTier-silence-label", lambda: ((w_, r_, sil, ns) for w_, r_ in ((2, 8), (1, 8000)) for sil in ("sil", "s", "a", "x", "SIL", "")
+                                                           for ns in (None, "append", "label")), _check_split_silence,
+                  rule="a tier whose entries are labelled %s x silenceLabel in {sil, s, a, x, SIL, ''} x 3 name styles: exactly the entries whose label equals the "
+                       "silence label are left out; every written file holds its entry's samples" % (SIL_LABELS,), bounds={}),
         InputPart("two-channel-recordings", lambda: ((w_, r_, ivs, k) for w_ in (1, 2, 4) for r_ in (8, 8000)
                                                  for ivs in ((), ((0, 12),), ((2, 5),), ((0, 3), (3, 7)), ((1, 2), (6, 12))) for k in ("keep", "delete")), _check_stereo,
                   rule="2-channel recordings of 12 frames (widths 1 / 2 / 4, 2 rates) read through an open wave reader x 5 interval lists on frame positions x "
